@@ -56,7 +56,7 @@ class Rng:
         return self.next() % n if n else 0
 
 
-def gen_script(seed, nranks, nphases, nops, bases, J, hpct=45, fwdpct=40, vmax=1, hot=70):
+def gen_script(seed, nranks, nphases, nops, bases, J, hpct=45, fwdpct=40, vmax=1, hot=70, vmap=None):
     """returns (lines, universe, contributions) ; contributions = [(phase, key, value)] of every insert any rank
     or handler will perform (the tally the oracle uses)"""
     g = Rng(seed)
@@ -68,7 +68,8 @@ def gen_script(seed, nranks, nphases, nops, bases, J, hpct=45, fwdpct=40, vmax=1
         return b + g.below(J) * S
 
     def val():
-        return 1 + g.below(vmax) if vmax > 1 else 1
+        v = 1 + g.below(vmax) if vmax > 1 else 1
+        return vmap(v) if vmap else v
 
     for ph in range(nphases):
         for r in range(nranks):
@@ -253,10 +254,10 @@ def make_cases(tier, seed):
     return cases
 
 
-def run_case(binary, scratch, case, idx, mode="cset", extra_args=()):
+def run_case(binary, scratch, case, idx, mode="cset", extra_args=(), vmap=None):
     n = case["nodes"] * case["ppn"]
     lines, universe, contrib = gen_script(case["script_seed"], n, case["phases"], case["nops"], case["bases"], case["J"],
-                                          hpct=case["hpct"], fwdpct=case["fwdpct"], vmax=case.get("vmax", 1), hot=case["hot"])
+                                          hpct=case["hpct"], fwdpct=case["fwdpct"], vmax=case.get("vmax", 1), hot=case["hot"], vmap=vmap)
     path = scratch.script(f"s{idx}.txt", lines, universe, case.get("len"))
     sr = C.run_sim(binary, [mode, path] + list(extra_args), nodes=case["nodes"], ppn=case["ppn"],
                    env={"YGM_COMM_BUFFER_SIZE_KB": case["buffer_kb"], "YGM_COMM_ROUTING": case["routing"]},
@@ -411,7 +412,7 @@ def search_around(res, binary, checker, runner, model_ok, budget=8, force=None):
     for f in todo:
         for i in range(budget):
             v = dict(f["case"], sim_seed=f["case"]["sim_seed"] + 1000 + i, policy=POLICIES[i % len(POLICIES)], buffer_kb=0)
-            v.update(force or {})
+            v.update(force[i % len(force)] if isinstance(force, list) else (force or {}))
             variants.append(v)
     with Scratch() as sc:
         out = C.pmap(lambda iv: (iv[1],) + runner(binary, sc, iv[1], 900 + iv[0]), list(enumerate(variants)))
